@@ -437,7 +437,11 @@ func (fr *frame) applyContract(con *Contract, key string, args []SV, cur *State,
 			fr.havocTarget(me, env, cur)
 		}
 	}
-	if vc.fn != nil && vc.fn.Pkg != nil {
+	// library state (container/list internals) is havocked by every call that could reach the library: every callee of
+	// the package itself and every callee without a footprint; an extern of another package (bytes, sort, tm-db key
+	// helpers ...) cannot touch it
+	libReach := !(con.Extern && !strings.HasPrefix(con.Pkg, "container/"))
+	if libReach && vc.fn != nil && vc.fn.Pkg != nil {
 		var ls []string
 		for h := range vc.eng.libState[vc.fn.Pkg.Pkg.Path()] {
 			if _, ok := vc.heapSort[h]; ok {
